@@ -906,7 +906,7 @@ func ruleC10_7(c *Ctx, r *Rep) {
 						switch dbi.Name() {
 						case "delete":
 							// delete(W, ch) after the close in the same iteration
-							if d.Call.Args[0] == w && strip(d.Call.Args[1]) == strip(ch) && instrDominates(call, d) {
+							if (d.Call.Args[0] == w || valKey(d.Call.Args[0]) == valKey(w)) && strip(d.Call.Args[1]) == strip(ch) && instrDominates(call, d) {
 								removed = true
 							}
 							// or the whole set W is dropped from its parent map afterwards
@@ -915,7 +915,7 @@ func ruleC10_7(c *Ctx, r *Rep) {
 							}
 						case "clear":
 							// or the set is emptied as a whole once the loop is done (every path from the close gets there)
-							if d.Call.Args[0] == w && reachable(call.Block(), d.Block(), nil, true) && mustReach(call.Block(), d.Block()) {
+							if (d.Call.Args[0] == w || valKey(d.Call.Args[0]) == valKey(w)) && reachable(call.Block(), d.Block(), nil, true) && mustReach(call.Block(), d.Block()) {
 								removed = true
 							}
 							// or the parent map that holds the set is emptied as a whole afterwards
